@@ -10,30 +10,37 @@ open Goml.Dce (keys lookup_cons_self lookup_cons_ne lookup_none_of_not_key key_o
 
 attribute [local irreducible] Goml.GoCompile.vn Goml.GoCompile.gid Goml.GoCompile.rn
 
-theorem toG_int {env : Env} {n s x gv} (h : toGV env (.int n s x) = some gv) : gv = .int n s x := by
+theorem toG_int {env : Env} {η : Hp} {n s x gv} (h : toGV env η (.int n s x) = some gv) : gv = .int n s x := by
   rw [toGV] at h; injection h with h; exact h.symm
-theorem toG_bool {env : Env} {b gv} (h : toGV env (.bool b) = some gv) : gv = .bool b := by
+theorem toG_bool {env : Env} {η : Hp} {b gv} (h : toGV env η (.bool b) = some gv) : gv = .bool b := by
   rw [toGV] at h; injection h with h; exact h.symm
 
 /-- the shape of a compiled call of the fragment: an ordinary Go call of `vn name` -/
-theorem toGVs_length {env : Env} : ∀ {vs : List Val} {gs : List GVal}, toGVs env vs = some gs → gs.length = vs.length
+theorem toGVs_length {env : Env} {η : Hp} : ∀ {vs : List Val} {gs : List GVal}, toGVs env η vs = some gs → gs.length = vs.length
   | [], gs, h => by simp [toGVs] at h; subst h; rfl
   | v :: vs, gs, h => by
     simp only [toGVs] at h
-    cases h1 : toGV env v with
+    cases h1 : toGV env η v with
     | none => rw [h1] at h; simp at h
     | some g =>
-      cases h2 : toGVs env vs with
+      cases h2 : toGVs env η vs with
       | none => rw [h1, h2] at h; simp at h
       | some gs' =>
         rw [h1, h2] at h; simp only [Option.some.injEq] at h; subst h
         simp [toGVs_length h2]
 
-theorem hasTys_length {env : Env} : ∀ {vs : List Val} {tys : List Ty}, HasTys env vs tys → vs.length = tys.length
+theorem hasTys_length {env : Env} {η : Hp} : ∀ {vs : List Val} {tys : List Ty}, HasTys env η vs tys → vs.length = tys.length
   | [], [], _ => rfl
   | [], _ :: _, h => by simp [HasTys] at h
   | _ :: _, [], h => by simp [HasTys] at h
   | v :: vs, t :: tys, h => by simp only [HasTys] at h; simp [hasTys_length h.2]
+
+/-- a callee that is not a special helper name keeps its (escaped) name in Go -/
+theorem goCallee_plain {name : String} {fty : Ty} {args : List Imm} {ty : Ty} (hsp : specialCallees.contains name = false)
+    (hrn : rn name = name) : goCallee (.var name fty) args ty = [vn name] := by
+  simp only [specialCallees, List.contains_cons, List.contains_nil, Bool.or_false, Bool.or_eq_false_iff, beq_eq_false_iff_ne] at hsp
+  obtain ⟨_, _, h3, h4, h5, _⟩ := hsp
+  simp [goCallee, hrn, h3, h4, h5]
 
 theorem compileCall_frag {env : Env} {file : AFile} {G : List String} {Γ : Ctx} {name : String} {fty : Ty}
     {args : List Imm} {ty : Ty} (h : callOK env file G Γ (.var name fty) args ty = true) :
@@ -111,16 +118,201 @@ theorem sem_bin_fuel {P : Prog} {ρ : Sem.Env} {w : World} {n : Nat} {op : BinOp
     (h : Sem.eval n P ρ w l = .fail .fuel w) : Sem.eval (n + 1) P ρ w (.bin op ty l r) = .fail .fuel w := by
   rw [Sem.eval, h]
 
+/-! ### the reference builtins -/
+
+theorem sem_call_fn {P : Prog} {ρ : Sem.Env} {w : World} {n : Nat} {ty fty : Ty} {name : String} {args : List Expr}
+    (hsrc : Sem.lookupEnv ρ name = none) :
+    Sem.eval (n + 2) P ρ w (.call ty (.var name fty) args) =
+      (match Sem.evalList (n + 1) P ρ w args with
+       | .fail f w => Res.fail f w
+       | .ok vs w => Sem.apply (n + 1) P w (.fn name) vs) := by
+  rw [Sem.eval]
+  rw [Sem.eval]; simp only [hsrc]
+  cases Sem.evalList (n + 1) P ρ w args <;> rfl
+
+theorem argsRel_two {env : Env} {η : Hp} {vs : List Val} {gvs : List GVal} {t1 t2 : Ty} (h : ArgsRel env η vs gvs [t1, t2]) :
+    ∃ v1 v2 g1 g2, vs = [v1, v2] ∧ gvs = [g1, g2] ∧ toGV env η v1 = some g1 ∧ HasTy env η v1 t1 ∧
+      toGV env η v2 = some g2 ∧ HasTy env η v2 t2 := by
+  rcases vs with _ | ⟨v1, _ | ⟨v2, _ | ⟨v3, vs⟩⟩⟩ <;> rcases gvs with _ | ⟨g1, _ | ⟨g2, _ | ⟨g3, gs⟩⟩⟩ <;> simp [ArgsRel] at h
+  exact ⟨v1, v2, g1, g2, rfl, rfl, h.1, h.2.1, h.2.2.1, h.2.2.2⟩
+
+theorem refcall_sim {env : Env} {file : AFile} {G : List String} {P : Prog} {F : GFile} (hl : Link env file G P F) (n : Nat)
+    (η : Hp) (Γ : Ctx) (ρ : Sem.Env) (w : World) (gρ : GEnv) (gw : GWorld) (Bad : List String)
+    (name : String) (fty : Ty) (args : List Imm) (ty : Ty)
+    (hfrag : refCallOK env file Γ (.var name fty) args ty = true) (hrel : EnvRel env η Γ ρ gρ) (hw : WRel env η w gw)
+    (hgood : ∀ y, y ∈ keys gρ → ¬ y ∈ Bad) (hcal : ∀ x, x ∈ calleesC (.call (.var name fty) args ty) → x ∈ Bad) :
+    ConclV env η F (compileCExpr env (.call (.var name fty) args ty)) gρ gw ty false true w
+      (Sem.eval (n + 1) P ρ w (CExpr.call (.var name fty) args ty).toExpr) := by
+  simp only [refCallOK, Bool.and_eq_true, beq_iff_eq] at hfrag
+  obtain ⟨⟨hloc, hrn⟩, hcase⟩ := hfrag
+  have hnone : lookupTy Γ name = none := by
+    cases hx : lookupTy Γ name with
+    | none => rfl
+    | some p => rw [hx] at hloc; simp at hloc
+  have hsrc : Sem.lookupEnv ρ name = none := hrel.2 name hnone
+  simp only [CExpr.toExpr, Imm.toExpr]
+  cases n with
+  | zero => rw [Sem.eval]; rw [Sem.eval]; trivial
+  | succ n =>
+  rw [sem_call_fn hsrc]
+  by_cases h1 : name = "ref"
+  · subst h1
+    simp only [beq_self_eq_true, if_true] at hcase
+    cases ty with
+    | ref e =>
+      simp only [Bool.and_eq_true] at hcase
+      obtain ⟨hargs, hrt⟩ := hcase
+      obtain ⟨vs, gvs, hrelA, hgA, hsA⟩ := imms_both P hl.ty hrel hargs
+      obtain ⟨v, g, rfl, rfl, hg, ht⟩ := argsRel_single hrelA
+      have hshape : compileCExpr env (.call (.var "ref" fty) args (.ref e)) =
+          .call (goTy (.ref e)) (.var (helperFnName "ref" (.ref e)) (.func [goTy e] (goTy (.ref e)))) (compileImms env args) := by
+        simp [compileCExpr, compileCall, callee, hrn, refElem]
+      rw [hshape]
+      have hbad : helperFnName "ref" (.ref e) ∈ Bad := hcal _ (by simp [calleesC, goCallee, hrn])
+      have hgo : lookupG gρ (helperFnName "ref" (.ref e)) = none := lookup_none_of_not_key (fun hk => hgood _ hk hbad)
+      rcases hsA (n + 1) w with h2 | h2
+      · rw [h2]; trivial
+      · rw [h2]; simp only
+        rw [Sem.apply]; simp only [hl.refSrc "ref" (by simp [refNames])]
+        have hb : Sem.builtin "ref" [v] w = some (.ok (.ref w.store.size) { w with store := w.store.push v }) := rfl
+        simp only [hb]
+        obtain ⟨hle, hw', hg', ht'⟩ := hw.alloc ht hg
+        exact ⟨_, hle, _, _, ev_call (ev_var_none hgo) (hgA gw) (ref_new_call (hl.refGo e hrt) gw g), hg', ht', hw',
+          fun h => by cases h⟩
+    | _ => exact absurd hcase (by simp)
+  · rw [if_neg h1] at hcase
+    by_cases h2 : name = "ref_get"
+    · subst h2
+      simp only [beq_self_eq_true, if_true, Bool.and_eq_true] at hcase
+      obtain ⟨hargs, hrt⟩ := hcase
+      obtain ⟨vs, gvs, hrelA, hgA, hsA⟩ := imms_both P hl.ty hrel hargs
+      obtain ⟨v, g, rfl, rfl, hg, ht⟩ := argsRel_single hrelA
+      -- the argument's annotated type is the reference type
+      have harg0 : (args.head?.map Imm.ty).getD (.tvar 0) = .ref ty := by
+        cases args with
+        | nil => simp [argsOK] at hargs
+        | cons a as =>
+          simp only [argsOK, Bool.and_eq_true] at hargs
+          simp [scalarEq_eq hargs.1.2]
+      have hshape : compileCExpr env (.call (.var "ref_get" fty) args ty) =
+          .call (goTy ty) (.var (helperFnName "ref_get" (.ref ty)) (.func [goTy (.ref ty)] (goTy ty))) (compileImms env args) := by
+        simp [compileCExpr, compileCall, callee, hrn, harg0, refElem]
+      rw [hshape]
+      have hbad : helperFnName "ref_get" (.ref ty) ∈ Bad := hcal _ (by simp [calleesC, goCallee, hrn, harg0])
+      have hgo : lookupG gρ (helperFnName "ref_get" (.ref ty)) = none := lookup_none_of_not_key (fun hk => hgood _ hk hbad)
+      rcases hsA (n + 1) w with h3 | h3
+      · rw [h3]; trivial
+      · rw [h3]; simp only
+        rw [Sem.apply]; simp only [hl.refSrc "ref_get" (by simp [refNames])]
+        -- the argument is a reference into the store
+        cases v <;> simp only [HasTy] at ht <;> try exact ht.elim
+        rename_i l
+        have ht' : HasTy env η (.ref l) (.ref ty) := by simp only [HasTy]; exact ht
+        obtain ⟨cv, gl, gcv, hs0, hloc0, hcvt, hcvg, hcell⟩ := hw.get ht'
+        have hb : Sem.builtin "ref_get" [.ref l] w = some (.ok cv w) := by
+          simp [Sem.builtin, hs0]
+        simp only [hb]
+        have hgp : g = .ptr gl := by simp [toGV, hloc0] at hg; exact hg.symm
+        subst hgp
+        exact ⟨η, η.le_refl, gcv, gw, ev_call (ev_var_none hgo) (hgA gw) (ref_get_call (hl.refGo ty hrt) gw gl gcv hcell),
+          hcvg, hcvt, hw, fun h => by cases h⟩
+    · rw [if_neg h2] at hcase
+      by_cases h3 : name = "ref_set"
+      · subst h3
+        simp only [beq_self_eq_true, if_true] at hcase
+        cases args with
+        | nil => simp at hcase
+        | cons r rest =>
+          simp only at hcase
+          cases hrty : r.ty with
+          | ref e =>
+            rw [hrty] at hcase; simp only [Bool.and_eq_true] at hcase
+            obtain ⟨⟨hargs, htu⟩, hrt⟩ := hcase
+            have htu' := scalarEq_eq htu; subst htu'
+            obtain ⟨vs, gvs, hrelA, hgA, hsA⟩ := imms_both P hl.ty hrel hargs
+            obtain ⟨v1, v2, g1, g2, rfl, rfl, hg1, ht1, hg2, ht2⟩ := argsRel_two hrelA
+            have hshape : compileCExpr env (.call (.var "ref_set" fty) (r :: rest) .unit) =
+                .call (goTy .unit) (.var (helperFnName "ref_set" (.ref e)) (.func [goTy (.ref e), goTy e] .unit))
+                  (compileImms env (r :: rest)) := by
+              simp [compileCExpr, compileCall, callee, hrn, hrty, refElem]
+            rw [hshape]
+            have hbad : helperFnName "ref_set" (.ref e) ∈ Bad := hcal _ (by simp [calleesC, goCallee, hrn, hrty])
+            have hgo : lookupG gρ (helperFnName "ref_set" (.ref e)) = none := lookup_none_of_not_key (fun hk => hgood _ hk hbad)
+            rcases hsA (n + 1) w with h4 | h4
+            · rw [h4]; trivial
+            · rw [h4]; simp only
+              rw [Sem.apply]; simp only [hl.refSrc "ref_set" (by simp [refNames])]
+              cases v1 <;> simp only [HasTy] at ht1 <;> try exact ht1.elim
+              rename_i l
+              have ht1' : HasTy env η (.ref l) (.ref e) := by simp only [HasTy]; exact ht1
+              obtain ⟨gl, hloc0, hlt, ⟨old, hcell⟩, hw'⟩ := hw.set ht1' ht2 hg2
+              have hb : Sem.builtin "ref_set" [.ref l, v2] w = some (.ok .unit { w with store := w.store.set! l v2 }) := by
+                simp [Sem.builtin, hlt]
+              simp only [hb]
+              have hgp : g1 = .ptr gl := by simp [toGV, hloc0] at hg1; exact hg1.symm
+              subst hgp
+              exact ⟨η, η.le_refl, .unit, _, ev_call (ev_var_none hgo) (hgA gw) (ref_set_call (hl.refGo e hrt) gw gl old g2 hcell),
+                rfl, trivial, hw', fun h => by cases h⟩
+          | _ => rw [hrty] at hcase; simp at hcase
+      · rw [if_neg h3] at hcase; cases hcase
+
+/-- the shape of a compiled call of a reference builtin: an ordinary Go call of the helper of the type -/
+theorem refcall_shape {env : Env} {file : AFile} {Γ : Ctx} {name : String} {fty : Ty} {args : List Imm} {ty : Ty}
+    (hfrag : refCallOK env file Γ (.var name fty) args ty = true) :
+    ∃ helper hty tys, compileCExpr env (.call (.var name fty) args ty) = .call (goTy ty) (.var helper hty) (compileImms env args) ∧
+      calleesC (.call (.var name fty) args ty) = [helper] ∧ argsOK env Γ args tys = true := by
+  simp only [refCallOK, Bool.and_eq_true, beq_iff_eq] at hfrag
+  obtain ⟨⟨hloc, hrn⟩, hcase⟩ := hfrag
+  by_cases h1 : name = "ref"
+  · subst h1
+    rw [if_pos rfl] at hcase
+    cases ty with
+    | ref e =>
+      simp only [Bool.and_eq_true] at hcase
+      exact ⟨helperFnName "ref" (.ref e), .func [goTy e] (goTy (.ref e)), _,
+        by simp [compileCExpr, compileCall, callee, hrn, refElem], by simp [calleesC, goCallee, hrn], hcase.1⟩
+    | _ => exact absurd hcase (by simp)
+  · rw [if_neg h1] at hcase
+    by_cases h2 : name = "ref_get"
+    · subst h2
+      rw [if_pos rfl] at hcase
+      simp only [Bool.and_eq_true] at hcase
+      have harg0 : (args.head?.map Imm.ty).getD (.tvar 0) = .ref ty := by
+        cases args with
+        | nil => simp [argsOK] at hcase
+        | cons a as =>
+          have := hcase.1
+          simp only [argsOK, Bool.and_eq_true] at this
+          simp [scalarEq_eq this.1.2]
+      exact ⟨helperFnName "ref_get" (.ref ty), .func [goTy (.ref ty)] (goTy ty), _,
+        by simp [compileCExpr, compileCall, callee, hrn, harg0, refElem], by simp [calleesC, goCallee, hrn, harg0], hcase.1⟩
+    · rw [if_neg h2] at hcase
+      by_cases h3 : name = "ref_set"
+      · subst h3
+        rw [if_pos rfl] at hcase
+        cases args with
+        | nil => cases hcase
+        | cons r rest =>
+          simp only at hcase
+          cases hrty : r.ty with
+          | ref e =>
+            rw [hrty] at hcase; simp only [Bool.and_eq_true] at hcase
+            exact ⟨helperFnName "ref_set" (.ref e), .func [goTy (.ref e), goTy e] .unit, _,
+              by simp [compileCExpr, compileCall, callee, hrn, hrty, refElem, scalarEq_eq hcase.1.2],
+              by simp [calleesC, goCallee, hrn, hrty], hcase.1.1⟩
+          | _ => rw [hrty] at hcase; cases hcase
+      · rw [if_neg h3] at hcase; cases hcase
+
 theorem stepV {env : Env} {file : AFile} {G : List String} {P : Prog} {F : GFile} (hl : Link env file G P F) {n : Nat}
     (hu : SimU env file G P F n) (hb : SimB env P F n) : SimV env file G P F (n + 1) := by
-  intro c Γ K ρ w gρ gw Bad hctl hfrag hrel hkrel hw hgood hcal
+  intro c η Γ K ρ w gρ gw Bad hctl hfrag hrel hkrel hw hgood hcal
   cases c with
   | imm i =>
     simp only [fragC] at hfrag
     obtain ⟨v, gv, hs, hg, h3, h4⟩ := imm_both P hl.ty hfrag hrel
     simp only [CExpr.toExpr, compileCExpr, CExpr.annTy]
     rw [hs n w]
-    exact ⟨gv, gw, hg gw, h3, h4, hw, fun _ => rfl⟩
+    exact ⟨η, η.le_refl, gv, gw, hg gw, h3, h4, hw, fun _ => ⟨rfl, rfl⟩⟩
   | un op e ty =>
     simp only [fragC, Bool.and_eq_true] at hfrag
     obtain ⟨he, hop⟩ := hfrag
@@ -139,7 +331,7 @@ theorem stepV {env : Env} {file : AFile} {G : List String} {P : Prog} {F : GFile
         obtain ⟨x, rfl⟩ := hasTy_int h4
         have := toG_int h3; subst this
         simp only [Sem.unop, gUn]
-        exact ⟨_, gw, ev_neg_int (hg gw), rfl, ⟨rfl, rfl⟩, hw, fun _ => rfl⟩
+        exact ⟨η, η.le_refl, _, gw, ev_neg_int (hg gw), rfl, ⟨rfl, rfl⟩, hw, fun _ => ⟨rfl, rfl⟩⟩
       | not =>
         simp only [unOK, Bool.and_eq_true] at hop
         have e1 := scalarEq_eq hop.1; have e2 := scalarEq_eq hop.2
@@ -147,7 +339,7 @@ theorem stepV {env : Env} {file : AFile} {G : List String} {P : Prog} {F : GFile
         obtain ⟨b, rfl⟩ := hasTy_bool h4
         have := toG_bool h3; subst this
         simp only [Sem.unop, gUn]
-        exact ⟨_, gw, ev_not (hg gw), rfl, trivial, hw, fun _ => rfl⟩
+        exact ⟨η, η.le_refl, _, gw, ev_not (hg gw), rfl, trivial, hw, fun _ => ⟨rfl, rfl⟩⟩
   | bin op l r ty =>
     simp only [fragC, Bool.and_eq_true] at hfrag
     obtain ⟨⟨hl', hr'⟩, hop⟩ := hfrag
@@ -176,25 +368,25 @@ theorem stepV {env : Env} {file : AFile} {G : List String} {P : Prog} {F : GFile
         · rw [sem_bin_fuel h1]; trivial
         · rw [sem_and_bool h1]
           cases x with
-          | false => exact ⟨_, gw, ev_and_false (hga gw), rfl, trivial, hw, fun _ => rfl⟩
+          | false => exact ⟨η, η.le_refl, _, gw, ev_and_false (hga gw), rfl, trivial, hw, fun _ => ⟨rfl, rfl⟩⟩
           | true =>
             simp only [if_true]
             rcases sem_imm_any hsb (w := w) n with h2 | h2
             · rw [h2]; trivial
             · rw [h2]; simp only [Sem.binop, Bool.true_and]
-              exact ⟨_, gw, ev_and_true (hga gw) (hgb gw), rfl, trivial, hw, fun _ => rfl⟩
+              exact ⟨η, η.le_refl, _, gw, ev_and_true (hga gw) (hgb gw), rfl, trivial, hw, fun _ => ⟨rfl, rfl⟩⟩
       · -- or
         rcases sem_imm_any hsa (w := w) n with h1 | h1
         · rw [sem_bin_fuel h1]; trivial
         · rw [sem_or_bool h1]
           cases x with
-          | true => exact ⟨_, gw, ev_or_true (hga gw), rfl, trivial, hw, fun _ => rfl⟩
+          | true => exact ⟨η, η.le_refl, _, gw, ev_or_true (hga gw), rfl, trivial, hw, fun _ => ⟨rfl, rfl⟩⟩
           | false =>
             simp only [Bool.false_eq_true, if_false]
             rcases sem_imm_any hsb (w := w) n with h2 | h2
             · rw [h2]; trivial
             · rw [h2]; simp only [Sem.binop, Bool.false_or]
-              exact ⟨_, gw, ev_or_false (hga gw) (hgb gw), rfl, trivial, hw, fun _ => rfl⟩
+              exact ⟨η, η.le_refl, _, gw, ev_or_false (hga gw) (hgb gw), rfl, trivial, hw, fun _ => ⟨rfl, rfl⟩⟩
     · have hlog' : Goml.C01.isLogic op = false := by simpa using hlog
       rw [sem_bin_nonlogic hlog']
       rcases sem_imm_any hsa (w := w) n with h1 | h1
@@ -218,15 +410,17 @@ theorem stepV {env : Env} {file : AFile} {G : List String} {P : Prog} {F : GFile
           · rw [hv]; simp only
             obtain ⟨gv, hgv, hgt⟩ := Goml.C01.binop_ok_agree op a b v ga gb hlog' h3a' h3b' hv
             rw [← gBin_eq_gop] at hgv
-            exact ⟨gv, gw, ev_bin (by rw [isLogicG_gBin]; exact hlog') (hga gw) (hgb gw) hgv, by rw [toGV_scalar hvt hscr]; exact hgt, hvt, hw, fun _ => rfl⟩
+            exact ⟨η, η.le_refl, gv, gw, ev_bin (by rw [isLogicG_gBin]; exact hlog') (hga gw) (hgb gw) hgv, by rw [toGV_scalar hvt hscr]; exact hgt, hvt, hw, fun _ => ⟨rfl, rfl⟩⟩
           · rw [hk]; simp only
             have hgk := Goml.C01.binop_panic_agree op a b ga gb k hlog' h3a' h3b' hk
             rw [← gBin_eq_gop] at hgk
-            exact ⟨gw, ev_bin_err (by rw [isLogicG_gBin]; exact hlog') (hga gw) (hgb gw) hgk, hw, rfl⟩
+            exact ⟨η, η.le_refl, gw, ev_bin_err (by rw [isLogicG_gBin]; exact hlog') (hga gw) (hgb gw) hgk, hw, rfl⟩
   | call f args ty =>
-    simp only [fragC] at hfrag
+    simp only [fragC, Bool.or_eq_true] at hfrag
     cases f with
     | var name fty =>
+      rcases hfrag with hfrag | hfrag
+      case inr => exact refcall_sim hl n η Γ ρ w gρ gw Bad name fty args ty hfrag hrel hw hgood hcal
       have hshape := compileCall_frag hfrag
       simp only [CExpr.toExpr, compileCExpr, CExpr.annTy, Imm.toExpr, hshape]
       simp only [callOK, Bool.and_eq_true, Bool.not_eq_true', beq_iff_eq] at hfrag
@@ -236,7 +430,7 @@ theorem stepV {env : Env} {file : AFile} {G : List String} {P : Prog} {F : GFile
         | none => rfl
         | some p => rw [hx] at hloc; simp at hloc
       have hsrc : Sem.lookupEnv ρ name = none := hrel.2 name hnone
-      have hbad : vn name ∈ Bad := hcal name (by simp [calleesC, calleeName])
+      have hbad : vn name ∈ Bad := hcal (vn name) (by simp [calleesC, goCallee_plain hsp hrn])
       have hgo : lookupG gρ (vn name) = none := lookup_none_of_not_key (fun hk => hgood _ hk hbad)
       rw [Sem.eval]
       cases n with
@@ -254,18 +448,18 @@ theorem stepV {env : Env} {file : AFile} {G : List String} {P : Prog} {F : GFile
           rcases hsA (n + 1) w with h2 | h2
           · rw [h2]; trivial
           · rw [h2]; simp only
-            have hcallr := hb name ps ty hbn' hsig vs gvs w gw hrelA hw
+            have hcallr := hb name ps ty hbn' hsig η vs gvs w gw hrelA hw
             rw [vn_builtin hbn'] at hgo ⊢
             revert hcallr
             cases hap : Sem.apply (n + 1) P w (.fn name) vs with
             | ok v w' =>
-              rintro ⟨gv, gw', hc, h3, h4, h5⟩
-              exact ⟨gv, gw', ev_call (ev_var_none hgo) (hgA gw) hc, h3, h4, h5, fun h => by simp [pureC] at h⟩
+              rintro ⟨η1, hle1, gv, gw', hc, h3, h4, h5⟩
+              exact ⟨η1, hle1, gv, gw', ev_call (ev_var_none hgo) (hgA gw) hc, h3, h4, h5, fun h => by simp [pureC] at h⟩
             | fail fl w' =>
               cases fl with
               | panic k =>
-                rintro ⟨gw', hc, h5⟩
-                exact ⟨gw', ev_call (ev_var_none hgo) (hgA gw) hc, h5, rfl⟩
+                rintro ⟨η1, hle1, gw', hc, h5⟩
+                exact ⟨η1, hle1, gw', ev_call (ev_var_none hgo) (hgA gw) hc, h5, rfl⟩
               | fuel => intro _; trivial
               | stuck s => intro _; trivial
         | none =>
@@ -284,7 +478,7 @@ theorem stepV {env : Env} {file : AFile} {G : List String} {P : Prog} {F : GFile
             rcases hsA (n + 1) w with h2 | h2
             · rw [h2]; trivial
             · rw [h2]; simp only
-              have hcallr := hu g hgmem hG' vs gvs w gw hrelA hw
+              have hcallr := hu g hgmem hG' η vs gvs w gw hrelA hw
               have hfn : fnName name = vn name := by
                 have hne : isEntry name = false := by simpa using hentry
                 simp only [fnName, hne, Bool.false_eq_true, if_false]
@@ -293,17 +487,17 @@ theorem stepV {env : Env} {file : AFile} {G : List String} {P : Prog} {F : GFile
               revert hcallr
               cases hap : Sem.apply (n + 1) P w (.fn name) vs with
               | ok v w' =>
-                rintro ⟨gv, gw', hc, h3, h4, h5⟩
-                exact ⟨gv, gw', ev_call (ev_var_none hgo) (hgA gw) hc, h3, h4, h5, fun h => by simp [pureC] at h⟩
+                rintro ⟨η1, hle1, gv, gw', hc, h3, h4, h5⟩
+                exact ⟨η1, hle1, gv, gw', ev_call (ev_var_none hgo) (hgA gw) hc, h3, h4, h5, fun h => by simp [pureC] at h⟩
               | fail fl w' =>
                 cases fl with
                 | panic k =>
-                  rintro ⟨gw', hc, h5⟩
-                  exact ⟨gw', ev_call (ev_var_none hgo) (hgA gw) hc, h5, rfl⟩
+                  rintro ⟨η1, hle1, gw', hc, h5⟩
+                  exact ⟨η1, hle1, gw', ev_call (ev_var_none hgo) (hgA gw) hc, h5, rfl⟩
                 | fuel => intro _; trivial
                 | stuck s => intro _; trivial
-    | prim p t => simp [callOK] at hfrag
-    | tag i t => simp [callOK] at hfrag
+    | prim p t => simp [callOK, refCallOK] at hfrag
+    | tag i t => simp [callOK, refCallOK] at hfrag
   | ite c t e ty => simp [isCtl] at hctl
   | «while» c b ty => simp [isCtl] at hctl
   | matchE s arms d ty => simp [isCtl] at hctl
@@ -332,7 +526,7 @@ theorem stepV {env : Env} {file : AFile} {G : List String} {P : Prog} {F : GFile
         · rw [h2]; simp only
           have hgo := ev_slit_name (name := variantGoName env tn vname) (hgF gw)
           rw [slit_variant hl.ty hn hd hvar hlen] at hgo
-          exact ⟨_, gw, hgo, hval, hT, hw, fun _ => rfl⟩
+          exact ⟨η, η.le_refl, _, gw, hgo, hval, hT, hw, fun _ => ⟨rfl, rfl⟩⟩
     | struct sn =>
       simp only [fragC, Bool.and_eq_true] at hfrag
       obtain ⟨⟨hty, hgood⟩, hcase⟩ := hfrag
@@ -354,7 +548,7 @@ theorem stepV {env : Env} {file : AFile} {G : List String} {P : Prog} {F : GFile
           rw [slit_struct hl.ty.closed hsn (hl.ty.table sn hsn) hd (by simpa using hlen)] at hgo
           have hgt : goTy (.struct sn) = .name (gid sn) := by simp [goTy]
           rw [hgt]
-          exact ⟨_, gw, hgo, hv, hT, hw, fun _ => rfl⟩
+          exact ⟨η, η.le_refl, _, gw, hgo, hv, hT, hw, fun _ => ⟨rfl, rfl⟩⟩
   | tuple items ty => simp [fragC] at hfrag
   | array items ty => simp [fragC] at hfrag
   | cget e c idx ty =>
@@ -392,7 +586,7 @@ theorem stepV {env : Env} {file : AFile} {G : List String} {P : Prog} {F : GFile
             rw [hti] at hcase; simp only at hcase
             have hty' := scalarEq_eq hcase; subst hty'
             simp only [toGV, hd] at h3
-            cases hgs : toGVs env vs with
+            cases hgs : toGVs env η vs with
             | none => rw [hgs] at h3; simp at h3
             | some gs =>
               rw [hgs] at h3; simp only [hvar, Option.some.injEq] at h3; subst h3
@@ -418,7 +612,7 @@ theorem stepV {env : Env} {file : AFile} {G : List String} {P : Prog} {F : GFile
                 have hnd := (hvs2 _ (List.mem_of_getElem? hvar)).2
                 rw [← hlenG] at hnd
                 have hlk2 := lookup_zip _ gs idx (fieldN idx) gi hnd hni hgi
-                exact ⟨gi, gw, ev_field_struct (hg gw) hlk2, hri, hti', hw, fun _ => rfl⟩
+                exact ⟨η, η.le_refl, gi, gw, ev_field_struct (hg gw) hlk2, hri, hti', hw, fun _ => ⟨rfl, rfl⟩⟩
     | struct sn =>
       simp only [fragC, Bool.and_eq_true] at hfrag
       obtain ⟨⟨he, hety⟩, hcase⟩ := hfrag
@@ -439,7 +633,7 @@ theorem stepV {env : Env} {file : AFile} {G : List String} {P : Prog} {F : GFile
         rw [hf] at hcase; simp only [Option.map_some] at hcase
         have hty' := scalarEq_eq hcase
         simp only [toGV, hd] at h3
-        cases hgs : toGVs env vs with
+        cases hgs : toGVs env η vs with
         | none => rw [hgs] at h3; simp at h3
         | some gs =>
           rw [hgs] at h3; simp only [Option.some.injEq] at h3; subst h3
@@ -452,7 +646,7 @@ theorem stepV {env : Env} {file : AFile} {G : List String} {P : Prog} {F : GFile
           · rw [h1]; simp only [hvi]
             have hni : (d.fields.map fun f => gid f.1)[idx]? = some (gid p.1) := by simp [hf]
             have hlk := lookup_zip _ gs idx (gid p.1) gi hnd hni hgi
-            exact ⟨gi, gw, ev_field_struct (hg gw) hlk, hri, hty' ▸ hti', hw, fun _ => rfl⟩
+            exact ⟨η, η.le_refl, gi, gw, ev_field_struct (hg gw) hlk, hri, hty' ▸ hti', hw, fun _ => ⟨rfl, rfl⟩⟩
   | toDyn tr forTy e ty => simp [fragC] at hfrag
   | dynCall tr m recv args ty => simp [fragC] at hfrag
   | go e ty => simp [fragC] at hfrag
